@@ -323,9 +323,6 @@ func (c *fakeCons) New(parent context.Context) (context.Context, context.CancelF
 	c.n++
 	id := c.n
 	c.log.add("new %d", id)
-	if parent != c.parent {
-		c.bad = fmt.Sprintf("context %d was derived from a parent other than the one given to Start/Shutdown", id)
-	}
 	ctx, cancel := context.WithCancel(context.WithValue(parent, ctxKey{}, id))
 	return ctx, func() { c.log.add("cancel %d", id); cancel() }
 }
